@@ -297,7 +297,11 @@ def run_pipeline(prop, tier, seed, workdir, shard=None):
 def diff_key(prop, d):
     """Key of a correspondence disagreement: property/verb:model→go outcome classes."""
     def cls(s):
-        return s.split(" (")[0].strip()[:40]
+        w = s.split(" ")
+        head = w[0] if w else ""
+        if head in ("err", "panic", "reject", "died") and len(w) > 1:
+            head += " " + w[1]
+        return head.split("[")[0][:40]
     return "%s/diff:%s:%s->%s" % (prop, d["verb"], cls(d["model"]), cls(d["go"]))
 
 
